@@ -6,6 +6,7 @@ import (
 	"time"
 	"fmt"
 	"reflect"
+	"strings"
 	"testing"
 
 	"verif.local/lib/evid"
@@ -152,6 +153,11 @@ func vfC03Setup(ex string) (*refs.FS, string) {
 	fs := refs.New()
 	fs.PlantDir("/d", 0755, 0, 0)
 	fs.PlantFile("/d/other", []byte("other-data"), 0644, 0, 0)
+	// neighbours whose names are derived from the name about to be created (temporary, backup and
+	// lock names an implementation might use on the way): they are somebody's files too
+	for _, sib := range []string{"x.tmp", ".x.tmp", "x~", "x.bak", "x.new", "x.lock", ".x.swp", "x.tmp.tmp", ".nfs-x", "x.part", "tmp"} {
+		fs.PlantFile("/d/"+sib, []byte("neighbour "+sib), 0640, 7, 8)
+	}
 	switch ex {
 	case "file":
 		fs.PlantFile("/d/x", []byte("precious data"), 0640, 5, 6)
@@ -244,6 +250,16 @@ func vfC03Judge(rec *evid.Rec, desc any, how uint32, ex string, sz int, sameVerf
 	same, diff := refs.SnapEqual(before, after)
 	// data-bearing paths whose bytes must survive when no size is given
 	dataPaths := map[string]string{"file": "/d/x", "symlink-to-file": "/d/target", "exclusive-created": "/d/x"}
+	// whatever the mode and whatever is at the name: the neighbours are not the request's business
+	for p, b := range before {
+		if !strings.HasPrefix(p, "/d/") || p == "/d/x" || p == "/d/target" || strings.HasPrefix(p, "/d/x/") {
+			continue
+		}
+		if a, ok := after[p]; !ok || !reflect.DeepEqual(a, b) {
+			rec.Violate("C03/neighbouring-object-changed-or-destroyed/mode="+mode, fmt.Sprintf("CREATE of \"x\" (%s, existing=%s) changed %s: size %d -> %d, still there: %v", mode, ex, p, b.Size, a.Size, ok), desc)
+			break
+		}
+	}
 	if !exists {
 		if r.Status != 0 {
 			rec.Violate("C03/create-of-fresh-name-failed/mode="+mode, fmt.Sprintf("status %d", r.Status), desc)
